@@ -276,6 +276,9 @@ class Splitter:
                 self._implicit_comment_start = None
 
                 start_line = self._current_line
+                # Where the implicit comment following this block starts.
+                #   None means: directly after the block's last mark.
+                next_implicit_comment_start = None
                 try:
                     # Start new block parsing
                     if m_val.startswith("@comment"):
@@ -304,6 +307,9 @@ class Splitter:
                             error=e,
                         )
                     )
+                    # Everything after the raw of the failed block is not part of it,
+                    #   and must not get lost (but be part of the next implicit comment).
+                    next_implicit_comment_start = e.end_index
 
                 except ParserStateException as e:
                     # This is a bug in the parser, not in the bibtex. We should not continue.
@@ -320,7 +326,9 @@ class Splitter:
                     )
                     raise e
 
-                self._reset_block_status(current_char_index=self._current_char_index + 1)
+                if next_implicit_comment_start is None:
+                    next_implicit_comment_start = self._current_char_index + 1
+                self._reset_block_status(current_char_index=next_implicit_comment_start)
             else:
                 # Part of implicit comment
                 continue
